@@ -48,3 +48,9 @@
 #ifndef VERIF_LOOP_toolutils_filterlist
 #define VERIF_LOOP_toolutils_filterlist
 #endif
+#ifndef VERIF_LOOP_asmcode_turn2
+#define VERIF_LOOP_asmcode_turn2
+#endif
+#ifndef VERIF_LOOP_asmcode_turn4
+#define VERIF_LOOP_asmcode_turn4
+#endif
